@@ -20,7 +20,8 @@ import random
 
 from . import common
 
-MODULES = ["CoapVerif.Props.C06", "CoapVerif.Props.C06Window", "CoapVerif.Props.C06Judge", "CoapVerif.Findings.C06"]
+MODULES = ["CoapVerif.Props.C06", "CoapVerif.Props.C06Window", "CoapVerif.Props.C06Judge", "CoapVerif.Findings.C06",
+           "CoapVerif.Props.C06Busy"]
 GENERATED = ["Retransmit.lean"]
 REACTIONS = ["pig", "ack-resp-con", "ack-resp-non", "ack-only", "rst-resp", "resp-only", "pig-lost-then-pig", "none"]
 
@@ -133,6 +134,47 @@ def handler_issued_lines():
                         out.append(" | ".join(ops))
     # two requests: one from a handler, one from the application, NSTART 2
     out.append("cfg 1000 2 2 | send 1 - | hsend 0 - p7 | burst 17 | ack 0 | ack 1 | sleep 1001 | tick 0 | resp 0 non 5 | resp 1 con 6")
+    return out
+
+
+def busy_application_lines():
+    """Far along in a connection's load: a handler of the application does not return (`hold` ... `release`) while the peer
+    keeps sending - k unrelated messages (k around and far beyond ReceivedMessageQueueSize = 16: one in the handler, 16
+    queued, the rest before the reader), then the acknowledgement / answer of the application's own confirmable request.
+    Judged by Spec.RetransmitBusy: what got back during the hold is owed at the release at the latest."""
+    out = []
+    n = 0
+    for A in (1000, 2 * 10**9):
+        for M in (1, 2, 4):
+            for k in (0, 1, 15, 16, 17, 24, 40, 300):
+                for reaction in ("pig", "ack-resp", "resp-non", "resp-con"):
+                    for when in ("at-once", "after-copy"):
+                        for during in ("quiet", "pass"):
+                            n += 1
+                            ops = ["cfg %d %d 1" % (A, M), "send 0 - %s" % ("p7" if n % 3 == 0 else "g")]
+                            if when == "after-copy":
+                                ops += ["sleep %d" % (A + 1), "tick 0"]
+                            ops += ["hold", "burst %d" % k]
+                            if reaction == "pig":
+                                ops.append("pig 0 7")
+                            elif reaction == "ack-resp":
+                                ops += ["ack 0", "resp 0 non 7"]
+                            elif reaction == "resp-non":
+                                ops.append("resp 0 non 7")
+                            else:
+                                ops.append("resp 0 con 7")
+                            if during == "pass":
+                                ops += ["sleep %d" % (A + 1), "tick 0"]
+                            ops += ["release", "sleep %d" % (A + 1), "tick 0", "cancel 0"]
+                            out.append(" | ".join(ops))
+    # two requests of the application outstanding (NSTART 2), answers to both behind the burst; a request issued DURING the
+    # hold (it takes the reading of the queue over); a ping and a confirmable write acknowledged during the hold
+    for k in (15, 16, 17, 40):
+        out.append("cfg 1000 2 2 | send 0 - g | send 1 - p7 | hold | burst %d | pig 1 6 | pig 0 7 | release | sleep 1001 | tick 0" % k)
+        out.append("cfg 1000 2 2 | send 0 - g | hold | burst %d | pig 0 7 | send 1 - g | pig 1 6 | release | sleep 1001 | tick 0" % k)
+        out.append("cfg 1000 2 1 | ping 0 - | hold | burst %d | rst 0 | release | sleep 1001 | tick 0" % k)
+        out.append("cfg 1000 2 1 | wcon 0 - c3 | hold | burst %d | ack 0 | release | sleep 1001 | tick 0" % k)
+        out.append("cfg 1000 2 1 | send 0 - g | hold | burst %d | rst 0 | resp 0 non 7 | release | cancel 0" % k)
     return out
 
 
@@ -552,6 +594,9 @@ def explore(ctx, art):
     hl = handler_issued_lines()
     lines += hl + [with_level(l, "opt") for l in hl[::7]]
     ctx.count("request-issued-from-a-handler x burst beyond the receive queue", len(hl))
+    bl = busy_application_lines()
+    lines += bl + [with_level(l, "opt") for l in bl[::7]]
+    ctx.count("application handler does not return x burst 0..300 around the receive queue (16) x answer behind it", len(bl))
     nfixed = len(lines)
     classes = {}
     for k in range(200000 if thorough else 20000):
